@@ -119,7 +119,9 @@ func NewFuncVC(P *Program, S *Specs, fn *ssa.Function, con *Contract) *FuncVC {
 }
 
 func (vc *FuncVC) reset(dry bool) {
-	vc.tc = NewTypeCtx()
+	if vc.tc == nil {
+		vc.tc = NewTypeCtx()
+	}
 	vc.comps = map[string]*compInfo{}
 	vc.compOrder = nil
 	vc.dry = dry
